@@ -2,10 +2,12 @@ SPECIFICATION Spec
 CONSTANTS
   Contents = {"a", "u", "m"}
   Unknown = {"u"}
-  Options = {"default", "d"}
+  Options = {"default", "p"}
   MaxRuns = 4
   HazardValence = FALSE
   HazardNCCG = FALSE
+  HazardCache = FALSE
   HazardParams = FALSE
 INVARIANT Pure
+INVARIANT PureRef
 CHECK_DEADLOCK FALSE
